@@ -25,17 +25,19 @@ ORDER = {'lie': 1, 'lieK': 1, 'strang': 2, 'yoshida': 4, 'kahan_li': 6}
 
 def space(tier):
     q = tier == 'quick'
-    return {'chain length': [2, 3, 4] if q else [2, 3, 4, 5], 'forms': ['hom n=2', 'hom n=3', 'inhom equal dims', 'inhom site-dependent dims'],
+    return {'chain length': [2, 3, 4] if q else [2, 3, 4, 5, 6], 'forms': ['hom n=2', 'hom n=3', 'inhom equal dims', 'inhom site-dependent dims'],
             'interaction': ['2d', 'r1', 'r2'], 'family': ['real', 'complex', 'skew'], 'initial rank': [1, 2, 'max'], 'h': [0.1, 0.5],
             'steps': [1, 2], 'normalize': [0, 2], 'schemes': SCHEMES}
 
 
 def cases(tier):
     q = tier == 'quick'
-    for d in ([2, 3, 4] if q else [2, 3, 4, 5]):
-        forms = [('hom', [2] * d), ('hom', [3] * d), ('inhom', [2] * d), ('inhom', ([2, 3, 2, 3, 2])[:d]), ('inhom', ([3, 2, 2, 3, 2])[:d])]
+    for d in ([2, 3, 4] if q else [2, 3, 4, 5, 6]):
+        forms = [('hom', [2] * d), ('hom', [3] * d), ('inhom', [2] * d), ('inhom', ([2, 3, 2, 3, 2, 2])[:d]), ('inhom', ([3, 2, 2, 3, 2, 2])[:d])]
         if d == 5:
             forms = [f for f in forms if max(f[1]) == 2 or f[0] == 'inhom'][:3]
+        if d == 6:
+            forms = [('hom', [2] * d), ('inhom', [2] * d)]
         for form, dims in forms:
             for inter in ('2d', 'r1', 'r2'):
                 for fam in ('real', 'complex', 'skew'):
